@@ -35,7 +35,7 @@ ASSUMPTIONS = [
     "a window is (t - interval, t]: two messages exactly one interval apart are not in the same window",
 ]
 MIN_NONTRIVIAL = {"quick": 2000, "thorough": 20000}
-REQUIRED_COUNTERS = ["decisions", "refusals", "growth_runs", "growth_runs_exempt", "integration.commands", "integration.refused_closes"]
+REQUIRED_COUNTERS = ["decisions", "refusals", "growth_runs", "growth_runs_exempt", "integration.commands", "integration.refused_closes", "integration.auth_commands", "large_n_runs"]
 SHARD_TIMEOUT = {"quick": 500, "thorough": 3000}
 
 A1, A2, AS4, AS6 = "10.0.0.1", "10.0.0.2", "10.9.9.9", "2001:db8::1"
@@ -306,6 +306,72 @@ def run_growth(spec, counters, viols, nontrivial):
                                   "replay": {"mode": "growth", "ruleset": rsi}})
 
 
+def run_large_n(spec, counters, viols, nontrivial):
+    """rules whose n is larger than anything the small rule sets use: exactly n are admitted per window"""
+    for n in (999, 1000, 1001, 1500, 4000):
+        for scope in ("ip", "global"):
+            clock = Clock()
+            lim = make_limiter({scope: {"EVENT": "%d/h" % n}}, clock)
+            admitted = 0
+            for i in range(n + 300):
+                clock.t += 0.001
+                admitted += not lim.is_limited(A1 if i % 2 or scope == "ip" else A2, ["EVENT"])
+            counters["large_n_runs"] = counters.get("large_n_runs", 0) + 1
+            counters["decisions"] = counters.get("decisions", 0) + n + 300
+            nontrivial.append(h(["large-n", n, scope]))
+            if admitted != n:
+                viols.append({"key": "%s/large-n" % ("over-admit" if admitted > n else "over-block"), "msg": "rule %s EVENT %d/h: %d of %d messages within one hour were admitted"
+                              % (scope, n, admitted, n + 300), "replay": {"mode": "growth"}})
+
+
+def run_auth_integration(spec, counters, viols, nontrivial):
+    """AUTH messages are rate limited like every other command - also when authentication is enabled"""
+    from .. import rig as R, ref
+
+    async def main():
+        rig = R.Rig(backend="sql", config={"analysis_delay": 0, "rate_limits": {"ip": {"AUTH": "2/m", "REQ": "3/m"}},
+                                           "authentication": {"enabled": True, "relay_urls": ["ws://localhost:6969"]}})
+        rig.load_config()
+        clock = Clock()
+        from nostr_relay import rate_limiter
+
+        rate_limiter.perf_counter = clock
+        await rig.start()
+        try:
+            lim = rate_limiter.get_rate_limiter(rig.Config)
+            calls = []
+            orig = lim.is_limited
+
+            def counted(addr, message):
+                v = orig(addr, message)
+                calls.append((message[0], v))
+                return v
+
+            lim.is_limited = counted
+            conn = rig.connect("rl-auth", rate_limiter=lim, addr=A1)
+            await rig.quiesce()
+            ch = next((f[1] for _, f in conn.parsed_frames() if isinstance(f, list) and f and f[0] == "AUTH"), "x")
+            key = ref.key_from_seed("c18-auth")
+            n0 = rig.rec.n
+            for i in range(5):
+                clock.t += 0.01
+                ev = ref.make_event(key, kind=22242, created_at=1700000000 + i, tags=[["relay", "ws://localhost:6969"], ["challenge", ch]], content="")
+                await conn.cmd(["AUTH", ev])
+            await rig.quiesce()
+            auth_calls = [v for c, v in calls if c == "AUTH"]
+            notices = [f for _, f in conn.parsed_frames(n0) if isinstance(f, list) and f and f[0] == "NOTICE" and "rate-limited" in str(f[1])]
+            counters.setdefault("integration", {})["auth_commands"] = 5
+            nontrivial.append(h(["integration", "auth", len(auth_calls)]))
+            if len(auth_calls) != 5:
+                viols.append({"key": "integration/auth-not-consulted", "msg": "authentication enabled, rule AUTH 2/m: 5 AUTH messages but %d limiter consultations for AUTH" % len(auth_calls), "replay": {"mode": "integration"}})
+            elif sum(1 for v in auth_calls if not v) != 2 or len(notices) != 3:
+                viols.append({"key": "integration/auth-limit", "msg": "AUTH 2/m with 5 AUTH messages: limiter admitted %d, %d rate-limited NOTICEs" % (sum(1 for v in auth_calls if not v), len(notices)), "replay": {"mode": "integration"}})
+        finally:
+            await rig.close()
+
+    R.run(main)
+
+
 def run_integration(spec, counters, viols, nontrivial):
     """through web.start_client: one consultation per validated command, refusals have no effect"""
     from .. import rig as R, ref, dump
@@ -455,8 +521,10 @@ def run_shard(spec):
         run_random(spec, counters, viols, nontrivial)
     elif spec["mode"] == "growth":
         run_growth(spec, counters, viols, nontrivial)
+        run_large_n(spec, counters, viols, nontrivial)
     else:
         run_integration(spec, counters, viols, nontrivial)
+        run_auth_integration(spec, counters, viols, nontrivial)
     seen, out = {}, []
     for v in viols:
         seen[v["key"]] = seen.get(v["key"], 0) + 1
